@@ -121,8 +121,18 @@ class PG:
             ("f0(i, j, i)", "int"), ("ident(xs)", "int"), ("ident(ss)", "str"), ("tree", "dict"),
         ])
 
-    def producer(self, ty):
-        """one iterable-producing (or iterable-preserving, async-variant) step: (filter text, new element type)"""
+    ONE_SHOT = ("ax", "asx", "ads", "ae", "atree")
+
+    def producer(self, ty, oneshot=False):
+        """one iterable-producing (or iterable-preserving, async-variant) step: (filter text, new element type).
+        `unique` is lazy in sync mode and drains its input in async mode (known finding C09:consumption:unique), which is
+        observable when a one-shot iterable is used again: it is not applied to one-shot sources here."""
+        st, ty2 = self._producer(ty)
+        while oneshot and "unique" in st:
+            st, ty2 = self._producer(ty)
+        return st, ty2
+
+    def _producer(self, ty):
         r = self.r
         if ty == "int":
             return self.pick([("map('string')", "str"), ("map('abs')", "int"), ("select('odd')", "int"), ("select('gt', %d)" % r.randrange(0, 4), "int"),
@@ -143,7 +153,13 @@ class PG:
         return self.pick([("map('length')", "int"), ("map('first')", "int"), ("map('join', '.')", "str"), ("select", "list"), ("map('list')", "list"),
                           ("map('sum')", "int")])
 
-    def sink(self, ty, want):
+    def sink(self, ty, want, oneshot=False):
+        s = self._sink(ty, want)
+        while oneshot and "unique" in s:
+            s = self._sink(ty, want)
+        return s
+
+    def _sink(self, ty, want):
         """a consumer with an async variant (or a `list` first): text"""
         r = self.r
         if want == "int":
@@ -166,27 +182,29 @@ class PG:
     def chain(self, want="str"):
         self.feat.add("chain")
         src, ty = self.source()
+        oneshot = src in self.ONE_SHOT
         steps = []
         for _ in range(self.r.randrange(0, 4)):
-            st, ty = self.producer(ty)
+            st, ty = self.producer(ty, oneshot)
             steps.append(st)
         if steps:
             self.feat.add("producer")
-        if src.startswith("a") and src in ("ax", "asx", "ads", "ae"):
+        if oneshot:
             self.feat.add("aiter-var")
-        e = src + "".join("|" + s for s in steps) + "|" + self.sink(ty, want)
+        e = src + "".join("|" + s for s in steps) + "|" + self.sink(ty, want, oneshot)
         return "(" + e + ")" if want != "str" or self.r.random() < 0.3 else e
 
     def iterable(self):
         """an expression for the `in` part of a for loop: (text, element type)"""
         src, ty = self.source()
+        oneshot = src in self.ONE_SHOT
         steps = []
         for _ in range(self.pick([0, 0, 1, 1, 2])):
-            st, ty = self.producer(ty)
+            st, ty = self.producer(ty, oneshot)
             steps.append(st)
         if steps:
             self.feat.add("for-over-producer")
-        if src in ("ax", "asx", "ads", "ae"):
+        if oneshot:
             self.feat.add("aiter-var")
         return src + "".join("|" + s for s in steps), ty
 
@@ -494,3 +512,19 @@ def consumer_probes(filters, tests):
 
 
 PROBE_DATA = {"xs": [3, 1, 2], "ps": [[1, 2], [3, 4]], "f0": {"$fn": "f0"}, "lst": {"$fn": "lst"}}
+
+
+def consumption_probes(variant_filters):
+    """how much of a one-shot iterable a filter with an async variant consumes when only the first item of its result is
+    taken: (filter name, template); `g` is a generator over [3, 1, 3, 2, 5, 4]"""
+    out = []
+    for name in sorted(variant_filters):
+        args = FILTER_ARGS.get(name, "")
+        if name == "groupby":
+            args = "('real')"
+        out.append((name, "{{ (g|%s%s|first) is defined }}|{{ g|list }}" % (name, args)))
+        out.append((name, "{%% for x in g|%s%s %%}{{ x }}{%% break %%}{%% endfor %%}|{{ g|list }}" % (name, args)))
+    return out
+
+
+CONSUMPTION_DATA = {"g": {"$aiter": [3, 1, 3, 2, 5, 4]}}
